@@ -389,6 +389,12 @@ def ite(c, a, b):
         return a if c[1] else b
     if c[0] == 'not':
         return ite(c[1], b, a)
+    # one orientation per condition: of c and not-c exactly one is "positive" (==, <, in, is, and);
+    # `x if c else y` and `y if not c else x` get the same term
+    if (c[0] == 'cmp' and c[1] in ('!=', '<=', 'notin', 'isnot')) or c[0] == 'or':
+        n = not_(c)
+        if not ((n[0] == 'cmp' and n[1] in ('!=', '<=', 'notin', 'isnot')) or n[0] in ('or', 'not')):
+            return ite(n, b, a)
     pairs = _eq_pairs(c)
     if pairs:
         # under the condition the paired terms are equal: if rewriting one side
